@@ -194,15 +194,19 @@ pub fn render_event(e: &Event, labels: &[String]) -> String {
             seq,
             bytes,
             complete,
+            first_seq,
+            qid,
             ..
         } => format!(
-            "{} reply {} sid={} seq={} len={} complete={}",
+            "{} reply {} sid={} seq={}..{} len={} complete={} qid={:?}",
             e.t,
             lab(*b),
             sid,
+            first_seq,
             seq,
             bytes.len(),
-            complete
+            complete,
+            qid
         ),
         Ev::Handover {
             b,
